@@ -53,7 +53,7 @@ def regen():
     tmp = os.path.join(WORK, "gen_tmp")
     shutil.rmtree(tmp, ignore_errors=True)
     os.makedirs(tmp)
-    rc, out = sh([tool, "-repo", REPO, "-targets", os.path.join(ROOT, "tools", "go2coq", "targets.json"), "-out", tmp],
+    rc, out = sh([tool, "-repo", REPO, "-targets", os.path.join(ROOT, "tools", "go2coq", "targets.d"), "-out", tmp],
                  timeout=300)
     gen = os.path.join(COQ, "Gen")
     os.makedirs(gen, exist_ok=True)
